@@ -53,6 +53,10 @@ def run(ctx):
         opts = [dict(prs=b'personal'), dict(PK=rb(nb + 3)), dict(kdf=b'kdf-id'), dict(nonce=rb(16)), dict(key=rb(20), prs=b'p', PK=rb(7), kdf=b'k', nonce=rb(nb))]
         for o in (opts if (big or Nb == 256) else opts[-1:]):
             ev.append(skein_event(Nb, Nb, rb(9), **o)); ctx.mark((Nb, 'opt', str(sorted(o))))
+    from crysp.skein import Skein
+    for Nb in (256, 512):
+        for m in core.zero_edge_inputs(lambda x: Skein(Nb, Nb)(x), lambda i: b'zs-%d-%d' % (ctx.seed, i), want=1, tries=700):
+            ev.append(skein_event(Nb, Nb, m)); ctx.mark((Nb, 'zero-edge'))
     # tree hashing (Skein-256 mostly, few dozen leaves at most)
     shapes = [(1, 1, 2), (1, 1, 3), (1, 2, 2), (2, 1, 4), (3, 3, 2), (1, 1, 4), (2, 2, 3)]
     for (Yl, Yf, Ym) in (shapes if big else shapes[:5]):
